@@ -181,6 +181,32 @@ def deeponet_unique_pairing_and_coverage(S):
     S.ensure("coverage-pair-in-witness-batch", z3.And(gi - ab >= 0, gi - ab < rb, gj - at >= 0, gj - at < rt), kind="lemma")
 
 
+@scenario("C16", [DU + ".__init__"], configs=["shuffle-trunk", "shuffle-branch", "shuffle-both"])
+def deeponet_unique_shuffles_inputs_and_targets_with_the_same_permutations(S):
+    """DeepONetDataset_Unique.__init__ with shuffling (per-function trunk layout): the stored tensors are
+    branch[r] = B[pi_b r],  trunk[r, s] = T[pi_b r, pi_t s],  out[r, s] = O[pi_b r, pi_t s]
+    with ONE permutation per axis (the drawn ones) applied to inputs and targets alike; __getitem__ then only slices
+    the stored tensors (scenario deeponet_unique_pairing_and_coverage, proved for arbitrary stored contents)."""
+    sb_, st_ = S.cfg in ("shuffle-branch", "shuffle-both"), S.cfg in ("shuffle-trunk", "shuffle-both")
+    Nb, Nt, bb, bt, B, Tr, O, ds = _deeponet(S, True, sb_, st_)
+    perms = S.ctx.ghost.get("perms", [])
+    S.ensure("one-permutation-per-shuffled-axis", len(perms) == int(sb_) + int(st_))
+    if len(perms) != int(sb_) + int(st_):
+        return
+    ident = lambda x: x
+    ft = perms[0][0] if st_ else ident
+    fb = perms[-1][0] if sb_ else ident
+    sbp, stp, sop = S.getattr(ds, "branch_data_points").val, S.getattr(ds, "trunk_data_points").val, S.getattr(ds, "out_data_points").val
+    ok = sbp.rank == 3 and stp.rank == 3 and sop.rank == 3
+    S.ensure("stored-tensors-keep-their-rank", ok)
+    if not ok:
+        return
+    S.ensure("stored-sizes", z3.And(sbp.shape[0].size_term() == zint(Nb), stp.shape[0].size_term() == zint(Nb), stp.shape[1].size_term() == zint(Nt), sop.shape[0].size_term() == zint(Nb), sop.shape[1].size_term() == zint(Nt)))
+    S.forall("branch-r-is-function-pi_b-r", sbp, lambda q: sbp.at(q) == B.val.at([(fb(zint(q[0][0])),), q[1], q[2]]))
+    S.forall("trunk-r-s-is-location-pi_t-s-of-function-pi_b-r", stp, lambda q: stp.at(q) == Tr.val.at([(fb(zint(q[0][0])),), (ft(zint(q[1][0])),), q[2]]))
+    S.forall("target-r-s-belongs-to-function-pi_b-r-at-location-pi_t-s", sop, lambda q: sop.at(q) == O.val.at([(fb(zint(q[0][0])),), (ft(zint(q[1][0])),), q[2]]))
+
+
 def _index_tensor(shape, axis):
     """tensor whose entries equal their own index along `axis` (provenance marker)"""
     from tpv.core import STensor, dim_of, zreal
